@@ -47,6 +47,16 @@ type knobs struct {
 	params                                           []string
 	dispatch                                         bool // query sessions (HandleDispatch) after every commit
 	bigSlash                                         bool // draw large slash fractions / a high minimum stake
+	slashDT, slashDS                                 []int   // percent choices (nil: defaults of bigSlash)
+	stakeMins                                        []int64 // minimum stake choices (nil: defaults of bigSlash)
+	burns                                            []int64 // challenge counts of injected burns (nil: default list)
+	pUnjailNearDeadline                              int     // percent: add an authorized unjail tx when a jailed node's deadline is within 100 s of the block time
+}
+
+// sessRec is one successfully dispatched session.
+type sessRec struct {
+	Chain string
+	Nodes []sdk.Address
 }
 
 type inject struct {
@@ -79,7 +89,7 @@ type stepRec struct {
 	Post       *posview.View   // committed state after the block
 	TPre       map[string]int64
 	TPost      map[string]int64 // consensus set as Tendermint holds it after applying this block's updates
-	Sessions   [][]sdk.Address  // nodes of every session successfully dispatched after the commit
+	Sessions   []sessRec        // every session successfully dispatched after the commit
 	Desc       string
 }
 
@@ -103,9 +113,19 @@ func newDirector(rt *rapid.T, c *harness.Case, k knobs) *director {
 	s.GenesisTime = k.eras[rapid.IntRange(0, len(k.eras)-1).Draw(rt, "era")]
 	np := &s.NodeParams
 	if k.bigSlash {
-		np.SlashFractionDowntime = sdk.NewDecWithPrec(int64(rapid.SampledFrom([]int{1, 25, 60, 100}).Draw(rt, "slashDowntime%")), 2)
-		np.SlashFractionDoubleSign = sdk.NewDecWithPrec(int64(rapid.SampledFrom([]int{5, 50, 100}).Draw(rt, "slashDouble%")), 2)
-		np.StakeMinimum = rapid.SampledFrom([]int64{1_000_000, 15_000_000_000, 15_000_000_000}).Draw(rt, "stakeMin")
+		dt, ds, mins := []int{1, 25, 60, 100}, []int{5, 50, 100}, []int64{1_000_000, 15_000_000_000, 15_000_000_000}
+		if k.slashDT != nil {
+			dt = k.slashDT
+		}
+		if k.slashDS != nil {
+			ds = k.slashDS
+		}
+		if k.stakeMins != nil {
+			mins = k.stakeMins
+		}
+		np.SlashFractionDowntime = sdk.NewDecWithPrec(int64(rapid.SampledFrom(dt).Draw(rt, "slashDowntime%")), 2)
+		np.SlashFractionDoubleSign = sdk.NewDecWithPrec(int64(rapid.SampledFrom(ds).Draw(rt, "slashDouble%")), 2)
+		np.StakeMinimum = rapid.SampledFrom(mins).Draw(rt, "stakeMin")
 	}
 	np.MaxJailedBlocks = int64(rapid.SampledFrom([]int{2, 3, 5, 12}).Draw(rt, "maxJailedBlocks"))
 	np.DowntimeJailDuration = time.Duration(rapid.SampledFrom([]int{60, 120}).Draw(rt, "jailSecs")) * time.Second
@@ -351,11 +371,11 @@ func (d *director) genDT() time.Duration {
 	now := d.n.Time
 	opts := []time.Duration{0, time.Second, time.Second, 5 * time.Second, 15 * time.Second, 40 * time.Second, 100 * time.Second}
 	var targeted []time.Duration
-	add := func(t time.Time) {
+	add := func(t time.Time, offs []time.Duration) {
 		if !t.After(now) {
 			return
 		}
-		for _, off := range []time.Duration{-time.Second, 0, 0, time.Second, 3 * time.Minute} {
+		for _, off := range offs {
 			if dt := t.Sub(now) + off; dt >= 0 {
 				targeted = append(targeted, dt)
 			}
@@ -364,11 +384,11 @@ func (d *director) genDT() time.Duration {
 	for _, r := range d.cur.Validators {
 		if r.Jailed {
 			if si, ok := d.cur.SignInfos[posview.Hex(r.Address)]; ok {
-				add(si.JailedUntil)
+				add(si.JailedUntil, []time.Duration{-time.Second, -time.Second, 0, 0, time.Second, time.Second})
 			}
 		}
 		if r.Status == sdk.Unstaking {
-			add(r.UnstakingCompletionTime)
+			add(r.UnstakingCompletionTime, []time.Duration{-time.Second, 0, 0, time.Second, 3 * time.Minute})
 		}
 	}
 	if len(targeted) > 0 && rapid.IntRange(0, 2).Draw(d.rt, "dtTargeted") > 0 {
@@ -422,7 +442,11 @@ func (d *director) genBlock() (chain.Block, []txRec, []inject, string) {
 	var injects []inject
 	if pct(rt, "burn", d.k.pBurn) {
 		op := d.pickOp("burnOp", func(r nodesTypes.Validator, ok bool) bool { return ok })
-		amt := rapid.SampledFrom([]int64{1, 5000, 1_000_000, 14_000_000, 16_000_000, 40_000_000, 100_000_000}).Draw(rt, "challenges")
+		burns := []int64{1, 5000, 1_000_000, 14_000_000, 16_000_000, 40_000_000, 100_000_000}
+		if d.k.burns != nil {
+			burns = d.k.burns
+		}
+		amt := rapid.SampledFrom(burns).Draw(rt, "challenges")
 		injects = append(injects, inject{Kind: "burn", Addr: chain.Addr(op), Amount: amt})
 		desc += fmt.Sprintf(" burn(%s x%d)", d.w.KeyName(op), amt)
 	}
@@ -450,6 +474,30 @@ func (d *director) genBlock() (chain.Block, []txRec, []inject, string) {
 	}
 	ntx := rapid.IntRange(0, d.k.maxTxs).Draw(rt, "nTxs")
 	var txs []txRec
+	if d.k.pUnjailNearDeadline > 0 {
+		for _, r := range d.cur.Validators {
+			si, ok := d.cur.SignInfos[posview.Hex(r.Address)]
+			if !r.Jailed || !ok {
+				continue
+			}
+			if gap := si.JailedUntil.Sub(newTime); gap > 100*time.Second || gap < -100*time.Second {
+				continue
+			}
+			op, ok := d.keys[posview.Hex(r.Address)]
+			if !ok || !pct(rt, "unjailNear", d.k.pUnjailNearDeadline) {
+				continue
+			}
+			signer := op
+			if k2, ok := d.keys[posview.Hex(posview.Output(r))]; ok && rapid.IntRange(0, 2).Draw(rt, "nearByOutput") == 0 {
+				signer = k2
+			}
+			msg := &nodesTypes.MsgUnjail{ValidatorAddr: chain.Addr(op), Signer: chain.Addr(signer)}
+			t := d.sign(msg, signer, "unjail", fmt.Sprintf("unjail %s (deadline %+ds)", d.w.KeyName(op), int(si.JailedUntil.Sub(newTime)/time.Second)), chain.Addr(op))
+			txs = append(txs, t)
+			b.Txs = append(b.Txs, t.Bytes)
+			desc += " | " + t.Desc
+		}
+	}
 	for i := 0; i < ntx; i++ {
 		if t, ok := d.genTx(avoid); ok {
 			txs = append(txs, t)
@@ -496,7 +544,7 @@ func updAddr(u abci.ValidatorUpdate) string {
 }
 
 // runStep executes one block on n step by step, taking the snapshots.
-func runStep(n *chain.Node, pre *posview.View, T map[string]int64, b chain.Block, txs []txRec, injects []inject, dispatch func() [][]sdk.Address) *stepRec {
+func runStep(n *chain.Node, pre *posview.View, T map[string]int64, b chain.Block, txs []txRec, injects []inject, dispatch func() []sessRec) *stepRec {
 	st := &stepRec{H: n.Height + 1, Blk: b, Injects: injects, Pre: pre, TPre: T}
 	n.BeginBlock(b)
 	st.Time = n.Time
@@ -524,8 +572,8 @@ func runStep(n *chain.Node, pre *posview.View, T map[string]int64, b chain.Block
 }
 
 // dispatchAll asks the real dispatch entry point for the session of every genesis application on every chain.
-func (d *director) dispatchAll() [][]sdk.Address {
-	var out [][]sdk.Address
+func (d *director) dispatchAll() []sessRec {
+	var out []sessRec
 	for _, ak := range d.w.Apps {
 		for _, ch := range chain.Chains {
 			nodes := func() (ns []sdk.Address) {
@@ -546,7 +594,7 @@ func (d *director) dispatchAll() [][]sdk.Address {
 				return ns
 			}()
 			if nodes != nil {
-				out = append(out, nodes)
+				out = append(out, sessRec{Chain: ch, Nodes: nodes})
 			}
 		}
 	}
@@ -556,7 +604,7 @@ func (d *director) dispatchAll() [][]sdk.Address {
 // step generates and runs the next block.
 func (d *director) step() *stepRec {
 	b, txs, injects, desc := d.genBlock()
-	var disp func() [][]sdk.Address
+	var disp func() []sessRec
 	if d.k.dispatch {
 		disp = d.dispatchAll
 	}
